@@ -5,12 +5,13 @@ from mp4gen import *
 
 ID = "C10"
 AREA = "mp4f"
-COQ_TARGETS = ["theories/Props/C10.vo", "theories/Mp4/SanB.vo"]
+AREAS = ["mp4f", "webp"]
+COQ_TARGETS = ["theories/Props/C10.vo", "theories/Props/C10w.vo", "theories/Mp4/SanB.vo"]
 REQUIRES = ["From Coq Require Import List NArith ZArith Bool.", "From Coq.Strings Require Import Byte.",
             "From MS Require Import Base.Bytes Base.Outcome Base.Prog Base.ProgSpec Base.BufLevel Mp4.Header Mp4.Box Mp4.San Mp4.SanB "
             "Mp4.Spec Mp4.TraceSpec Props.C10.",
             "Import ListNotations.", "Open Scope N_scope."]
-COQCHK = ["MS.Props.C10"]
+COQCHK = ["MS.Props.C10", "MS.Props.C10w"]
 THEOREMS = [
     ("C10_noninterference_generic", """forall (A : Type) (p : prog A) (i1 i2 : input) (lenient : bool) (max_seek pos : N),
       ilen i1 = ilen i2 ->
@@ -404,7 +405,7 @@ def coq_bool(line, model_out):
     return "match %s with (%s, n, tr) => (n =? %d) && Nat.eqb (length tr) %d | _ => false end" % (call, pat, n, n)
 
 
-LEVEL_TEXT = ("MP4 half. Theorems (Coq, every input of any size, every configuration, strict and seek-style cursor): the sanitizer programme "
+LEVEL_TEXT = ("WebP half: C10_webp_container_alloc_bounded, C10_webp_tree_size_bounded (see level_note) + sampled peak heap against a derived constant. MP4 half. Theorems (Coq, every input of any size, every configuration, strict and seek-style cursor): the sanitizer programme "
               "obeys the monitor of Mp4/TraceSpec.v over every reader (per top-level box: fill_buf, stream_position, header reads of 4,4,[8],[16] "
               "bytes, optionally stream_len/stream_position, then EITHER a skip OR an allocation of n <= max(max_metadata_size,1024) bytes "
               "followed by the read of exactly those n bytes); on the ideal cursor every read is such a header read inside the 32-byte window at "
@@ -419,7 +420,7 @@ LEVEL_TEXT = ("MP4 half. Theorems (Coq, every input of any size, every configura
               "allowed set computed from the box tiling, result unchanged after scrambling media bytes, sampled peak heap and |metadata| within "
               "the stated bounds. Statements about every offset of every input of any size (multi-GiB sparse streams included) are what a proof "
               "decides; tests only sample them.")
-LEVEL_NOTE = ("WebP half PENDING (no webp programme model yet). Modelled and proved: the sizes the code REQUESTS for box payloads and for the "
+LEVEL_NOTE = ("MP4 half - modelled and proved: the sizes the code REQUESTS for box payloads and for the "
               "output buffer, the order of operations, which bytes are read. SAMPLED, not proved: real peak heap (counting global allocator in the "
               "harness; bound peak <= %d*max(limit,1024)+%d bytes stated in the evidence; the Vec of parsed children, error reports and the "
               "allocator's own overhead are not in the model). The 32-byte look-ahead of the BufReader is in the Level-B model, which is compared "
@@ -428,8 +429,188 @@ LEVEL_NOTE = ("WebP half PENDING (no webp programme model yet). Modelled and pro
               "that are a sequence of complete boxes and enough fuel, through Spec.tiling (C10_media_noninterference_tiled, using the loop "
               "lemma of Mp4/LoopProofs.v). Finding D6 (metadata not bounded by the limit) is fixed (3c176e3); its classifier stays in known_class and its former "
               "witness is the first corpus case. Observation (no violation): a moov made of 8-byte children costs about 11-12 bytes of heap per "
-              "payload byte (the vector of parsed children), which is what the constant 16 in the sampled heap bound absorbs. No axioms." % (HEAP_A, HEAP_B))
+              "payload byte (the vector of parsed children), which is what the constant 16 in the sampled heap bound absorbs. WebP half - proved: every allocation the container code sizes by an argument (ChunkReader::read_data) is at most 16 bytes "
+              "(C10_webp_container_alloc_bounded, every reader/validator/config/fuel); an accepted prefix-code tree has one leaf per used symbol, at most "
+              "the alphabet size (<= 2328), and one internal node fewer (C10_webp_tree_size_bounded), which bounds the tables bitstream-io builds from it "
+              "(<= 256 + leaves tables of 256 entries: one top-level table, <= 255 first-level and <= leaves-1 second-level continuation tables for codes of "
+              "at most 15 bits; this arithmetic about the third-party tabulation is NOT proved). SAMPLED, not proved: webpsan's real peak heap under a "
+              "counting allocator stays below WEBP_HEAP_BOUND = (tables of one prefix-code group + the code-length code) * 256 * entry size + 2 MiB "
+              "(about 31 MB; measured worst about 4 MB) whatever the declared dimensions (up to 16384 x 16384), chunk sizes (up to 4 GiB, sparse) and number "
+              "of prefix-code groups (up to 4096 in the corpus: groups must not be kept alive together); that the lossless validator does not materialise "
+              "sub-images and keeps one group alive at a time is a property of the Rust code the pure Gallina validator (Vp8l.v) cannot exhibit. No axioms." % (HEAP_A, HEAP_B))
 TECHNIQUE = ("Coq: programme logic with a monitor (state machine over operations) + invariant on the ideal cursor + generic non-interference by "
              "induction on the free-monad programme; exact inner-trace differential check against the real sanitizer under a metering reader and a "
              "counting allocator")
 DESIGN_REF = "DESIGN.md section 7 (C10), section 8 (D6), 3.1, Appendix A/B"
+
+
+# ---------------------------------------------------------------------- WebP half (webp area): `wmeter` lines, oracle only
+import webpgen as W
+from props import _c07_vp8l as G
+from props import _c19_vp8l as V
+
+_mp4 = dict(gen=gen, same=same, classify=classify, nontrivial=nontrivial, oracle=oracle, search=search, coq_bool=coq_bool,
+            known_class=known_class)
+ENTRY = 24                      # size_of::<ReadHuffmanTree<LE, _>>() (checked against the harness on every run: kind `sizes`)
+ALPHABETS = (256 + 24 + 2048, 256, 256, 256, 40)
+TABLES = sum(256 + a for a in ALPHABETS) + (256 + 19)
+WEBP_HEAP_BOUND = TABLES * 256 * ENTRY + 2 * 2**20
+_WREQ = ["From Coq Require Import List NArith Bool.", "From Coq.Strings Require Import Byte.",
+         "From MS Require Import Base.Bytes Base.Outcome Base.Prog Base.ProgSpec Webp.Container Webp.Huffman Webp.ResourceProofs Props.C10w.",
+         "Open Scope N_scope."]
+THEOREMS = THEOREMS + [
+    ("C10_webp_container_alloc_bounded", """forall (lossless : N -> N -> bytes -> res unit) (allow : bool) (fuel : nat) (R : reader) (s : rst R),
+  all_steps (amon 16) R (fun _ _ o _ => alloc_ok 16 o) (webp_prog lossless allow fuel) s tt"""),
+    ("C10_webp_tree_size_bounded", """forall (cl : list N) (t : htree), new_vec cl = Ok t ->
+  fleaves (ht_tree t) = length (symbols (index_from 0 cl))
+  /\\ (fleaves (ht_tree t) <= length cl)%nat
+  /\\ S (fnodes (ht_tree t)) = fleaves (ht_tree t)"""),
+]
+REQUIRES_FOR = {"C10_webp_container_alloc_bounded": _WREQ, "C10_webp_tree_size_bounded": _WREQ}
+NOTES = [n for n in NOTES if not n.startswith("WebP half pending")] + [
+    "WebP half: `wmeter` lines are judged by the oracle only (peak heap <= WEBP_HEAP_BOUND = %d bytes, no read request above 4096 bytes)" % WEBP_HEAP_BOUND]
+
+
+def _is_w(line):
+    return line.startswith("wmeter ")
+
+
+def area_of(line):
+    return "webp" if _is_w(line) else "mp4f"
+
+
+def _wl(f, rd="lenient", allow=True):
+    return "wmeter " + W.case_line(rd, allow, f).split(" ", 1)[1].rsplit(" ", 1)[0]
+
+
+def many_groups(ngroups, two_symbol=True):
+    """a valid 1x1 lossless stream whose meta prefix image names group index ngroups-1, followed by ngroups groups of five
+    simple codes (each group is cheap to write, about 60 bits, but costs the reader five compiled trees)"""
+    bw = V.BW()
+    bw.put(0, 1)                    # no transform
+    bw.put(0, 1)                    # no colour cache
+    bw.put(1, 1)                    # meta prefix codes present
+    bw.put(0, 3)                    # block bits 2: 1x1 entropy image
+    g = ngroups - 1
+    bw.put(0, 1)                    # sub-image: no colour cache
+    V.write_simple_code(bw, [g & 255])          # green  = low byte of the group index
+    V.write_simple_code(bw, [(g >> 8) & 255])   # red    = high byte
+    V.write_simple_code(bw, [0]); V.write_simple_code(bw, [0]); V.write_simple_code(bw, [0])
+    for _ in range(ngroups):                    # (single-symbol codes: the one pixel of the sub-image costs no bits)
+        for _ in range(5):
+            V.write_simple_code(bw, [0, 1] if two_symbol else [0])
+    bw.put(0, 4)                                # the one pixel of the image: green, red, blue, alpha one bit each
+    return bw.tobytes() + b"\0" * 4
+
+
+def wgen(run):
+    rng = run.rng
+    quick = run.tier == "quick"
+    for f in W.valid_files():
+        yield _wl(f), "webp-valid"
+    # many prefix-code groups in a tiny stream
+    for n in ((2, 64, 1024, 4096) if quick else (2, 64, 1024, 4096, 16384)):
+        for two in (True, False):
+            body = many_groups(n, two)
+            yield _wl(W.riff(W.chunk(b"VP8L", W.vp8l_payload(1, 1, body)))), "webp-many-groups"
+            yield _wl(W.riff(W.chunk(b"VP8X", W.vp8x_payload(W.ALPHA, 1, 1)) + W.chunk(b"ALPH", b"\1" + body) + W.mk(b"VP8 "))), "webp-many-groups"
+    # structured lossless streams: huge declared dimensions with zero-length-code fills, deep codes, many groups
+    for i in range(120 if quick else 3000):
+        w, h, body, facts = G.build(rng, meta=(rng.random() < 0.6), big_fill=(rng.random() < 0.3),
+                                    size=((16384, 16384) if i % 10 == 0 else None))
+        if w > 16384 or h > 16384:
+            continue
+        yield _wl(W.riff(W.chunk(b"VP8L", W.vp8l_payload(w, h, body)))), "webp-structured"
+    # declared chunk sizes up to 4 GiB on sparse streams (skipped chunks, truncated lossless bodies)
+    for total, tag in ((2**32 - 2, "max"), (2**31, "2g"), (2**24, "16m")):
+        size = total - 8
+        hdr = b"RIFF" + W.le32(size) + b"WEBP"
+        for name in (b"VP8 ", b"VP8L", b"ICCP"):
+            body_len = total - 12 - 8
+            if name == b"ICCP":
+                pre = W.chunk(b"VP8X", W.vp8x_payload(W.ICCP, 16384, 16384))
+                ch = pre + name + W.le32(body_len - len(pre))
+            elif name == b"VP8L":
+                ch = name + W.le32(body_len) + W.vp8l_payload(16384, 16384, bytes(rng.randrange(256) for _ in range(64)))
+            else:
+                ch = name + W.le32(body_len)
+            yield "wmeter lenient 1 %d 0:%s" % (total, (hdr + ch).hex()), "webp-huge-chunk-" + tag
+            yield "wmeter strict 1 %d 0:%s" % (total, (hdr + ch).hex()), "webp-huge-chunk-" + tag
+    # garbage lossless bodies for the largest dimensions
+    for _ in range(100 if quick else 3000):
+        body = bytes(rng.randrange(256) for _ in range(rng.choice([8, 60, 300, 5000])))
+        yield _wl(W.riff(W.chunk(b"VP8L", W.vp8l_payload(16384, 16384, body)))), "webp-garbage"
+
+
+def gen(run):
+    yield from _mp4["gen"](run)
+    yield from wgen(run)
+
+
+def same(line, impl, model):
+    return True if _is_w(line) else _mp4["same"](line, impl, model)
+
+
+def classify(line, impl):
+    if not _is_w(line):
+        return _mp4["classify"](line, impl)
+    t = impl.split("|")[0].split()
+    return "webp-" + (t[0] if t and t[0] != "err" else ("err-" + t[2].split(":")[0] if len(t) > 2 else "missing"))
+
+
+def nontrivial(line, impl):
+    return (len(line) > 100) if _is_w(line) else _mp4["nontrivial"](line, impl)
+
+
+def coq_bool(line, model_out):
+    return None if _is_w(line) else _mp4["coq_bool"](line, model_out)
+
+
+def known_class(line, impl):
+    return None if _is_w(line) else _mp4["known_class"](line, impl)
+
+
+def _woracle(run, pairs):
+    out = []
+    worst = 0
+    run.use_area("webp")
+    sz = run.harness(["z sizes"]).get("z", "")
+    run.use_area("mp4f")
+    entry_ok = all(x.split("=")[1] == str(ENTRY) for x in sz.split() if "=" in x) and "entry_u16" in sz
+    for line, impl in pairs:
+        if "|" not in impl:
+            out.append((False, "no observation / panic / abort: %s" % impl[:100]))
+            continue
+        kv = dict(x.split("=") for x in impl.split("|")[1].split() if "=" in x)
+        heap, maxreq = int(kv.get("heap", 0)), int(kv.get("maxreq", 0))
+        worst = max(worst, heap)
+        bad = []
+        if not entry_ok:
+            bad.append("table entry size of bitstream-io changed (%s): WEBP_HEAP_BOUND must be re-derived" % sz)
+        if heap > WEBP_HEAP_BOUND:
+            bad.append("webpsan peak heap %d exceeds the constant %d (tables of one prefix-code group + slack)" % (heap, WEBP_HEAP_BOUND))
+        if maxreq > 4096:
+            bad.append("a single read request of %d bytes (> 4096-byte bit buffer)" % maxreq)
+        out.append((not bad, "; ".join(bad)))
+    note = "webp: sampled peak heap worst %d bytes over %d cases (bound %d)" % (worst, len(pairs), WEBP_HEAP_BOUND)
+    if len(pairs) > 20 and not any(n.startswith("webp: sampled peak heap") for n in run.notes):
+        run.notes.append(note)
+    return out
+
+
+def oracle(run, pairs):
+    wi = [i for i, (l, _) in enumerate(pairs) if _is_w(l)]
+    mi = [i for i, (l, _) in enumerate(pairs) if not _is_w(l)]
+    res = [None] * len(pairs)
+    if mi:
+        for i, r in zip(mi, _mp4["oracle"](run, [pairs[i] for i in mi])):
+            res[i] = r
+    if wi:
+        for i, r in zip(wi, _woracle(run, [pairs[i] for i in wi])):
+            res[i] = r
+    return res
+
+
+def search(run, disagreements):
+    yield from _mp4["search"](run, disagreements)
+    yield from wgen(run)
